@@ -281,6 +281,8 @@ fn fire(cl: &mut crate::srv::Cl, rpc: &str, i: u64, n_stream: usize, v: &[f32]) 
         match r {
             Ok(()) => (1, 0),
             Err(s) if lim(s.code()) => (0, 1),
+            // connection-level failures are no admission decision at all
+            Err(s) if matches!(s.code(), Code::Unknown | Code::Unavailable | Code::Cancelled | Code::DeadlineExceeded) => (0, 0),
             Err(_) => (1, 0), // refused for another reason after admission (still counted as admitted: conservative)
         }
     };
